@@ -65,6 +65,7 @@ func (e *Engine) verifyFunc(key string) (res *FuncResult) {
 		sort.Strings(res.Notes)
 	}()
 
+	curResTypes = x.trackedResultTypes()
 	st := newState()
 	sig := fn.Signature
 	fr := &Frame{fn: fn, regs: map[ssa.Value]Value{}}
